@@ -112,6 +112,225 @@ Example C05_root_room_example :
   find_free_entries FixedRoot ss 1 = Ok 1 /\ find_free_entries (Chained 1) ss 4 = Ok 3.
 Proof. vm_compute. repeat split. Qed.
 
+(* ================================================================ whole device images (Model/VolRemove.v, Proofs/VolRemoveProofs.v)
+   "removing a file gives back all of its clusters", on the image and for the independent decoder Spec/Abs.v:
+   root_dir().remove(name) = the lookup, FileSystem::free_cluster_chain on the FAT slice of the image ([fs_free_chain], the
+   function of C05_remove_reclaims_all, over the byte-level store with all mirrored copies), then the deletion loop. *)
+From FatVerif Require Import Model.Str Model.Time Model.Fat Model.FileM Model.VolDir Model.VolFile Model.VolSession Model.VolRemove
+  Spec.Image Spec.Abs Spec.ByteFile Proofs.FileProofs Proofs.VolDirProofs Proofs.VolFileProofs Proofs.VolSessionProofs
+  Proofs.VolRemoveProofs Proofs.VolSessionExamples Proofs.VolRemoveExamples Proofs.VolDirFormat.
+From FatVerif Require Spec.Wf Model.Lfn Model.Name Proofs.TimeProofs Proofs.FatProofs Proofs.VolRemoveFormat Model.Format Spec.FormatSpec
+  Model.FormatImage Spec.FormatImageSpec Proofs.FormatImageProofs.
+
+(* free_cluster_chain on the image: a chain the decoder can walk ([chain_from] = Some l) without repetition is freed entirely -
+   every cluster of it FFree for the decoder, every other entry as before, no byte outside the mirrored FAT copies touched,
+   count_free grown by exactly its length, the FS-info latch map_free(+length) and consistent with the new table *)
+Theorem C05_vol_free_chain_reclaims_all : forall g, vgeom_ok g -> forall im fi c l,
+  FatProofs.bytes_ok im -> fi_inv fstore (val_ft (ft_of g)) (store_of g im) fi (g_clusters g) ->
+  c <> 0 -> chain_from g im c (Abs.chain_fuel g) = Some l -> NoDup l ->
+  exists im1, vol_free_chain g im fi c = Ok (im1, map_free fi (fun n => n + N.of_nat (length l))) /\
+    FatProofs.bytes_ok im1 /\
+    fi_inv fstore (val_ft (ft_of g)) (store_of g im1) (map_free fi (fun n => n + N.of_nat (length l))) (g_clusters g) /\
+    (forall a, ~ in_store_area g a -> img_get im1 a = img_get im a) /\
+    (forall x, In x l -> fat_val g im1 x = FFree) /\
+    (forall x, 2 <= x < g_clusters g + 2 -> ~ In x l -> fat_val g im1 x = fat_val g im x) /\
+    (forall x, In x l -> 2 <= x < g_clusters g + 2 /\ fat_val g im x <> FFree) /\
+    count_free g im1 = count_free g im + N.of_nat (length l).
+Proof. exact vol_free_chain_spec. Qed.
+
+(* THE IMAGE-LEVEL THEOREM.  A well-formed FAT12/16 volume (no issue of Spec/Wf.v, any folding), root slots [attrs_sane] (as in
+   C01_vol_remove_decodes); [name] resolves by the library's own lookup to a file [ev] not stored under a dot short name
+   (necessary: such an entry is decoded as a dot entry whose cluster field Spec/Wf.v does not judge).  Then remove succeeds and
+   (a) the decoded root loses exactly the node of that file, every other node is there exactly as decoded before;
+   (b) every cluster of the file's chain [l] is FFree for the decoder, every other FAT entry and every data byte is as before,
+       count_free grows by exactly length l ("all of its clusters are given back"), the FS-info latch is that of
+       C05_remove_reclaims_all (untouched when the entry had no first cluster: free_cluster_chain is not called);
+   (c) no issue of Spec/Wf.v afterwards;  (d) only bytes of the FAT copies and of the entry's root slots change. *)
+Theorem C05_vol_remove_reclaims_all : forall upper oem fold im fi name ev,
+  let g := parse_geom im in
+  fixed_root_geom g -> FatProofs.bytes_ok im ->
+  fi_inv fstore (val_ft (ft_of g)) (store_of g im) fi (g_clusters g) ->
+  Wf.wf_issues fold im = [] -> Forall attrs_sane (root_region_slots g im) ->
+  root_lookup upper oem im name = Ok ev -> Lfn.ev_is_dir ev = false ->
+  list_eqb (Lfn.ev_raw_name ev) DOT || list_eqb (Lfn.ev_raw_name ev) DOTDOT = false ->
+  exists im' ns1 e l content ns2,
+    vol_remove_file_root upper oem im fi name = Some (Ok tt, im', fi_after_remove fi (e_cluster e) (length l)) /\
+    v_root (abs im) = ns1 ++ NFile e (if e_cluster e =? 0 then None else Some l) content :: ns2 /\
+    v_root (abs im') = ns1 ++ ns2 /\
+    matches upper oem name ev = true /\ e_sfn e = Lfn.ev_raw_name ev /\ e_cluster e = Lfn.ev_cluster_lo ev /\
+    e_size e = Lfn.ev_size ev /\
+    (e_cluster e = 0 -> l = []) /\
+    (e_cluster e <> 0 -> chain_from g im (e_cluster e) (Abs.chain_fuel g) = Some l) /\
+    len_N l = Wf.ceil_div (e_size e) (g_cluster_size g) /\
+    v_root_issues (abs im') = [] /\ v_labels (abs im') = v_labels (abs im) /\ v_geom (abs im') = v_geom (abs im) /\
+    v_root_chain (abs im') = v_root_chain (abs im) /\ v_status (abs im') = v_status (abs im) /\ parse_geom im' = g /\
+    NoDup l /\
+    (forall x, In x l -> 2 <= x < g_clusters g + 2 /\ fat_val g im x <> FFree /\ fat_val g im' x = FFree) /\
+    (forall x, 2 <= x < g_clusters g + 2 -> ~ In x l -> fat_val g im' x = fat_val g im x) /\
+    (forall c, 2 <= c -> cluster_bytes g im' c = cluster_bytes g im c) /\
+    count_free g im' = count_free g im + N.of_nat (length l) /\
+    FatProofs.bytes_ok im' /\
+    fi_inv fstore (val_ft (ft_of g)) (store_of g im') (fi_after_remove fi (e_cluster e) (length l)) (g_clusters g) /\
+    Wf.wf_issues fold im' = [] /\
+    (forall a, ~ in_store_area g a -> (a < g_root_off g \/ g_root_off g + root_bytes g <= a) -> img_get im' a = img_get im a) /\
+    (forall i, (N.of_nat i < e_first_slot e \/ e_sfn_slot e < N.of_nat i) ->
+       nth i (root_region_slots g im') [] = nth i (root_region_slots g im) []) /\
+    Forall attrs_sane (root_region_slots g im').
+Proof. exact vol_remove_file_decodes. Qed.
+
+(* the other outcomes.  The lookup fails (NotFound, ...): that error is the answer and image and latch are handed back as they
+   were.  The model answers None exactly for a directory (outside this model: emptiness check, "." / "..") or when the chain
+   walk itself fails (corrupt table; excluded by well-formedness above). *)
+Theorem C05_vol_remove_failed_unchanged : forall upper oem im fi name r im' fi',
+  vol_remove_file_root upper oem im fi name = Some (r, im', fi') -> r <> Ok tt ->
+  im' = im /\ fi' = fi /\ (forall ev, root_lookup upper oem im name <> Ok ev) /\
+  match r with Err e => root_lookup upper oem im name = Err e | Panic => root_lookup upper oem im name = Panic
+             | OutOfFuel => root_lookup upper oem im name = OutOfFuel | Ok _ => False end.
+Proof. exact vol_remove_file_failed_unchanged. Qed.
+
+Theorem C05_vol_remove_none_iff : forall upper oem im fi name,
+  vol_remove_file_root upper oem im fi name = None <->
+  exists ev, root_lookup upper oem im name = Ok ev /\
+    (Lfn.ev_is_dir ev = true \/
+     (Lfn.ev_is_dir ev = false /\ forall x, vol_free_chain (parse_geom im) im fi (root_entry_cluster ev) <> Ok x)).
+Proof. exact vol_remove_file_none. Qed.
+
+(* it extends the cluster-less remove of Model/VolDir.v (C01_vol_remove_decodes): same answer, same image *)
+Theorem C05_vol_remove_extends_empty : forall upper oem im fi name r im',
+  vol_remove_empty_file_root upper oem im name = Some (r, im') ->
+  vol_remove_file_root upper oem im fi name = Some (r, im', fi) \/
+  ((forall ev, root_lookup upper oem im name <> Ok ev) /\ img_same im im' /\
+   exists r0, vol_remove_file_root upper oem im fi name = Some (r0, im, fi)).
+Proof. exact vol_remove_file_extends_empty. Qed.
+
+(* ---- one fill / delete cycle on an empty volume ([EmptyVol g im fi]: geometry g, bytes < 256, consistent latch, no root node,
+   no root issue, attrs_sane slots, every cluster free - e.g. a freshly formatted volume, C05_vol_formatted_is_empty):
+   create_file(name) ; any calls under any clock ; flush ; remove(name).  The remove SUCCEEDS (the library's lookup finds the
+   entry just written: decoder -> library listing C03_decoded_lfn_is_listed, name matching C15_lookup_self), the session's
+   image is well formed with count_free = all - ceil(len / cluster size), and afterwards the volume is an EmptyVol again *)
+Theorem C05_vol_cycle_step : forall upper oem fold acc g im fi name now ops range im1,
+  fixed_root_geom g -> EmptyVol g im fi ->
+  TimeProofs.datetime_valid now = true -> Forall op_ok (map fst ops) -> clocks_ok ops ->
+  str_valid name = true -> name <> [] -> Name.is_dot_name name = false ->
+  vol_create_empty_file_root upper oem im name now = (Ok (Some range), im1) ->
+  exists st rs content pos (l : list N) im' fi',
+    vol_session upper oem acc im fi name now ops = Some (st, rs) /\
+    bf_run ([], 0) (map fst ops) rs = Some (content, pos) /\
+    N.of_nat (length l) = cdiv (g_cluster_size g) (len_N content) /\
+    count_free g (s_im st) + N.of_nat (length l) = g_clusters g /\
+    Wf.wf_issues fold (s_im st) = [] /\
+    vol_remove_file_root upper oem (s_im st) (s_fi st) name = Some (Ok tt, im', fi') /\
+    EmptyVol g im' fi' /\ v_labels (abs im') = v_labels (abs im) /\ Wf.wf_issues fold im' = [] /\
+    (forall c, 2 <= c -> cluster_bytes g im' c = cluster_bytes g (s_im st) c).
+Proof. exact cycle_step. Qed.
+
+(* [vol_cycle] runs iff create_file creates the entry, and then leaves an EmptyVol *)
+Theorem C05_vol_cycle_spec : forall upper oem fold acc g im fi c,
+  fixed_root_geom g -> EmptyVol g im fi -> cycle_ok c ->
+  (forall im2 fi2, vol_cycle upper oem acc im fi c = Some (im2, fi2) ->
+     EmptyVol g im2 fi2 /\ v_labels (abs im2) = v_labels (abs im) /\ Wf.wf_issues fold im2 = []) /\
+  (forall range im1, vol_create_empty_file_root upper oem im (cy_name c) (cy_now c) = (Ok (Some range), im1) ->
+     exists im2 fi2, vol_cycle upper oem acc im fi c = Some (im2, fi2)).
+Proof. exact vol_cycle_spec. Qed.
+
+(* FILL / DELETE CYCLES NEVER SHRINK CAPACITY (n cycles, by induction): whatever was created, written and removed, the volume
+   is empty, well formed and EVERY cluster is free again *)
+Theorem C05_vol_cycles_keep_capacity : forall upper oem fold acc g, fixed_root_geom g -> forall cs im fi im' fi',
+  EmptyVol g im fi -> Forall cycle_ok cs -> vol_cycles upper oem acc im fi cs = Some (im', fi') ->
+  EmptyVol g im' fi' /\ count_free g im' = g_clusters g /\ v_root (abs im') = [] /\
+  v_labels (abs im') = v_labels (abs im) /\ Wf.wf_issues fold im' = [].
+Proof. exact vol_cycles_keep_capacity. Qed.
+
+(* ---- from ANY device content (composition with C06_image_decodes_empty / C04_session_format_decodes) *)
+Theorem C05_vol_formatted_is_empty : forall o ts im0 bs t im fi, FormatSpec.builder_range o -> ts < 4294967296 -> FatProofs.bytes_ok im0 ->
+  Format.format_boot_sector_validated o ts = Ok (bs, t) -> t <> Format.Fat32 ->
+  (Format.o_max_root_dir_entries o * 32) mod Format.o_bytes_per_sector o = 0 -> FormatImage.format_image o ts im0 = Ok im ->
+  let g := FormatImageSpec.geom_of (Format.fbs_bpb bs) in
+  fi_inv fstore (val_ft (ft_of g)) (store_of g im) fi (g_clusters g) ->
+  fixed_root_geom g /\ EmptyVol g im fi /\ g_clusters g = FormatSpec.sp_clusters (Format.fbs_bpb bs) /\
+  v_labels (abs im) = FormatImageProofs.expected_labels o.
+Proof. exact VolRemoveFormat.formatted_empty_vol. Qed.
+
+(* format ; create ; any writes ; flush ; remove: the image decodes like the freshly formatted one *)
+Theorem C05_vol_format_session_remove_decodes : forall upper oem fold acc o ts im0 bs t im fi name now ops range im1,
+  FormatSpec.builder_range o -> ts < 4294967296 -> FatProofs.bytes_ok im0 ->
+  Format.format_boot_sector_validated o ts = Ok (bs, t) -> t <> Format.Fat32 ->
+  (Format.o_max_root_dir_entries o * 32) mod Format.o_bytes_per_sector o = 0 -> FormatImage.format_image o ts im0 = Ok im ->
+  let g := FormatImageSpec.geom_of (Format.fbs_bpb bs) in
+  fi_inv fstore (val_ft (ft_of g)) (store_of g im) fi (g_clusters g) ->
+  TimeProofs.datetime_valid now = true -> Forall op_ok (map fst ops) -> clocks_ok ops ->
+  str_valid name = true -> name <> [] -> Name.is_dot_name name = false ->
+  vol_create_empty_file_root upper oem im name now = (Ok (Some range), im1) ->
+  exists st rs content pos im' fi',
+    vol_session upper oem acc im fi name now ops = Some (st, rs) /\
+    bf_run ([], 0) (map fst ops) rs = Some (content, pos) /\
+    count_free g (s_im st) = FormatSpec.sp_clusters (Format.fbs_bpb bs) - cdiv (g_cluster_size g) (len_N content) /\
+    vol_remove_file_root upper oem (s_im st) (s_fi st) name = Some (Ok tt, im', fi') /\
+    v_root (abs im') = [] /\ v_root_issues (abs im') = [] /\ v_labels (abs im') = FormatImageProofs.expected_labels o /\
+    parse_geom im' = g /\ count_free g im' = FormatSpec.sp_clusters (Format.fbs_bpb bs) /\ Wf.wf_issues fold im' = [] /\
+    fi_inv fstore (val_ft (ft_of g)) (store_of g im') fi' (g_clusters g) /\
+    (forall c, 2 <= c -> cluster_bytes g im' c = cluster_bytes g (s_im st) c).
+Proof. exact VolRemoveFormat.format_session_remove_decodes. Qed.
+
+Theorem C05_vol_format_cycles_keep_capacity : forall upper oem fold acc o ts im0 bs t im fi cs im' fi',
+  FormatSpec.builder_range o -> ts < 4294967296 -> FatProofs.bytes_ok im0 ->
+  Format.format_boot_sector_validated o ts = Ok (bs, t) -> t <> Format.Fat32 ->
+  (Format.o_max_root_dir_entries o * 32) mod Format.o_bytes_per_sector o = 0 -> FormatImage.format_image o ts im0 = Ok im ->
+  let g := FormatImageSpec.geom_of (Format.fbs_bpb bs) in
+  fi_inv fstore (val_ft (ft_of g)) (store_of g im) fi (g_clusters g) ->
+  Forall cycle_ok cs -> vol_cycles upper oem acc im fi cs = Some (im', fi') ->
+  v_root (abs im') = [] /\ v_labels (abs im') = FormatImageProofs.expected_labels o /\ parse_geom im' = g /\
+  count_free g im' = FormatSpec.sp_clusters (Format.fbs_bpb bs) /\ Wf.wf_issues fold im' = [] /\
+  fi_inv fstore (val_ft (ft_of g)) (store_of g im') fi' (g_clusters g).
+Proof. exact VolRemoveFormat.format_cycles_keep_capacity. Qed.
+
+(* non-vacuity and the concrete picture: the 64-sector FAT12 image after the session of C04_session_example ("a.txt", 515 bytes,
+   clusters 2 -> 3); the premises hold; remove("a.txt"): no root node, 58 -> 60 free clusters, FAT bytes of clusters 2, 3 zero in
+   both copies, data bytes in place, slots 1, 2 marked 0xE5, label slot untouched; NotFound for another name and for the same
+   name again; two whole cycles from the formatted image *)
+Example C05_vol_remove_example_hyps :
+  let g := parse_geom ex_rm_im in
+  fixed_root_geom g /\ FatProofs.bytes_ok ex_rm_im /\
+  fi_inv fstore (val_ft (ft_of g)) (store_of g ex_rm_im) ex_rm_fi (g_clusters g) /\
+  Wf.wf_issues (fun l => l) ex_rm_im = [] /\ Forall attrs_sane (root_region_slots g ex_rm_im) /\
+  (exists ev, root_lookup ex_U ex_O ex_rm_im ex_sname = Ok ev /\ Lfn.ev_is_dir ev = false /\
+     list_eqb (Lfn.ev_raw_name ev) DOT || list_eqb (Lfn.ev_raw_name ev) DOTDOT = false /\
+     Lfn.ev_cluster_lo ev = 2 /\ Lfn.ev_size ev = 515) /\
+  (exists ev, root_lookup ex_U ex_O ex_rm_im [65; 46; 84; 88; 84] = Ok ev /\ Lfn.ev_is_dir ev = false).
+Proof. exact ex_remove_hyps. Qed.
+
+Example C05_vol_remove_example :
+  match vol_remove_file_root ex_U ex_O ex_rm_im ex_rm_fi ex_sname with
+  | Some (Ok _, im', fi') =>
+    v_root (abs im') = [] /\ v_root_issues (abs im') = [] /\
+    v_labels (abs im') = [[65; 66; 67; 68; 69; 70; 71; 72; 73; 74; 75]] /\
+    Wf.wf_issues (fun l => l) im' = [] /\
+    count_free (parse_geom ex_rm_im) ex_rm_im = 58 /\ count_free (parse_geom ex_rm_im) im' = 60 /\
+    img_read ex_rm_im 515 3 = [3; 240; 255] /\ img_read im' 515 3 = [0; 0; 0] /\ img_read im' 1027 3 = [0; 0; 0] /\
+    img_read im' (2048 + 509) 6 = [1; 2; 3; 4; 5; 6] /\
+    map (fun k => img_get im' (1536 + 32 * k)) [0; 1; 2; 3] = [65; 229; 229; 0] /\
+    fi' = ex_rm_fi
+  | _ => False
+  end.
+Proof. exact ex_remove_result. Qed.
+
+Example C05_vol_remove_example_not_found :
+  vol_remove_file_root ex_U ex_O ex_rm_im ex_rm_fi [98] = Some (Err ENotFound, ex_rm_im, ex_rm_fi) /\
+  match vol_remove_file_root ex_U ex_O ex_rm_im ex_rm_fi ex_sname with
+  | Some (_, im', fi') => fst (fst (match vol_remove_file_root ex_U ex_O im' fi' ex_sname with Some x => x | None => (Ok tt, im', fi') end))
+                          = Err ENotFound
+  | None => False
+  end.
+Proof. exact ex_remove_not_found. Qed.
+
+Example C05_vol_cycles_example :
+  Forall cycle_ok ex_cycles /\
+  match vol_cycles ex_U ex_O false ex_vol_im ex_sfi ex_cycles with
+  | Some (im', fi') => v_root (abs im') = [] /\ count_free (parse_geom ex_vol_im) im' = 60 /\ Wf.wf_issues (fun l => l) im' = []
+  | None => False
+  end.
+Proof. exact ex_cycles_run. Qed.
+
 Print Assumptions C05_stats_exact.
 Print Assumptions C05_alloc_accounting.
 Print Assumptions C05_remove_reclaims_all.
@@ -119,3 +338,14 @@ Print Assumptions C05_truncate_reclaims.
 Print Assumptions C05_root_nospace_only_without_room.
 Print Assumptions C05_chain_directory_never_refused.
 Print Assumptions C05_find_free_first_fit.
+Print Assumptions C05_vol_free_chain_reclaims_all.
+Print Assumptions C05_vol_remove_reclaims_all.
+Print Assumptions C05_vol_remove_failed_unchanged.
+Print Assumptions C05_vol_remove_none_iff.
+Print Assumptions C05_vol_remove_extends_empty.
+Print Assumptions C05_vol_cycle_step.
+Print Assumptions C05_vol_cycle_spec.
+Print Assumptions C05_vol_cycles_keep_capacity.
+Print Assumptions C05_vol_formatted_is_empty.
+Print Assumptions C05_vol_format_session_remove_decodes.
+Print Assumptions C05_vol_format_cycles_keep_capacity.
